@@ -194,6 +194,8 @@ def run_topic_check(ctx, prop, *, kinds, want, given, maxseq, u1_quick, u1_thoro
         cand = []
         steps_of = {b["id"]: b["steps"] for b in bj}
         for r in recs:
+            if r["i"] > 0 and r["act"].get("during"):
+                continue        # a request with another one gated into it is not additionally faulted (its call log mixes two requests)
             if r["i"] > 0 and r["calls"] and r["act"].get("a") in faults.get("kinds", ("Pub", "DelMsg", "Sub", "SetSelf", "SetOther", "Leave", "DelSub", "Note", "NewGrp", "SetDesc")):
                 for k in range(1, len(r["calls"]) + 1):
                     for mode in faults.get("modes", ("error",)):
